@@ -8,7 +8,7 @@ prop=$(jq -r .property /verif/seeded/$id/meta.json)
 D=$(mktemp -d); mkdir -p "$D/vd"; cp /verif/known_findings.json /verif/trusted_sites.json /verif/baseline_functions.txt "$D/vd/"
 git -C /repo worktree add -q "$D/w" HEAD || exit 2
 if ! git -C "$D/w" apply "/verif/seeded/$id/patch.diff" 2>/dev/null; then echo "$id: PATCH DOES NOT APPLY"; else
-  out=$(VERIF_DIR="$D/vd" GOMAXPROCS=${CHECK_PROCS:-4} /verif/bin/verif-sa check --property "$prop" --repo "$D/w" 2>&1)
+  out=$(VERIF_DIR="$D/vd" GOMAXPROCS=${CHECK_PROCS:-4} ${VERIF_BIN:-/verif/bin/verif-sa} check --property "$prop" --repo "$D/w" 2>&1)
   rules=$(echo "$out" | grep "VIOLATION rule\|UNDECIDED rule" | sed 's/.*rule=\([^ ]*\).*/\1/' | sort -u | tr '\n' ' ')
   if echo "$out" | grep -q "^VIOLATION property"; then echo "$id: detected ($prop: $rules)"; else echo "$id: MISSED ($prop)"; fi
 fi
